@@ -5,7 +5,8 @@ ROOT = os.path.dirname(os.path.abspath(__file__))
 import sys
 sys.path.insert(0, ROOT)
 from checkcfg import PROPS
-from manifest_text import TEXT, NOT_YET
+from checkcfg import TEXT
+NOT_YET = {}
 
 hooks = subprocess.run(["git", "-C", "/repo", "log", "--format=%H %s"], capture_output=True, text=True).stdout.splitlines()
 hook_commits = [l.split()[0] for l in hooks if l.split(" ", 1)[1].startswith("verif-hooks")]
